@@ -822,6 +822,11 @@ func (f *Frame) store(st *State, l Loc, v Term, pos token.Pos) {
 		h := vc.heapGet(st, l.key, ArraySort(SInt, v.Sort))
 		vc.heapSet(st, l.key, vc.define("h", Store(h, l.ref, v)))
 	case locSliceElem:
+		// slices have value semantics here: a write through a slice PARAMETER would be invisible to the caller
+		// (in-out slice parameters are not implemented) - refuse instead of proving something about a copy
+		if l.parent.kind == locVar && vc.isParamVar(l.parent.obj) {
+			vc.fail(pos, "element write through slice parameter %s: in-out slice parameters are outside the subset", l.parent.obj.Name())
+		}
 		s := f.load(st, *l.parent, pos)
 		f.safe(st, And(app(SBool, "<=", IntLit(0), l.idx), app(SBool, "<", l.idx, SLen(s))), "index", pos)
 		f.store(st, *l.parent, MkSlice(Store(SArr(s), l.idx, v), SLen(s)), pos)
@@ -1172,3 +1177,40 @@ func exprString(e ast.Expr) string {
 }
 
 var _ = strings.TrimSpace
+
+// isParamVar: obj is a parameter or receiver of some function or function literal of the loaded packages.
+func (vc *VC) isParamVar(obj types.Object) bool {
+	vc.prog.paramOnce.Do(func() {
+		vc.prog.paramVars = map[types.Object]bool{}
+		for _, pk := range vc.prog.Pkgs {
+			if pk.TypesInfo == nil {
+				continue
+			}
+			add := func(fl *ast.FieldList) {
+				if fl == nil {
+					return
+				}
+				for _, fd := range fl.List {
+					for _, nm := range fd.Names {
+						if o := pk.TypesInfo.Defs[nm]; o != nil {
+							vc.prog.paramVars[o] = true
+						}
+					}
+				}
+			}
+			for _, file := range pk.Syntax {
+				ast.Inspect(file, func(n ast.Node) bool {
+					switch n := n.(type) {
+					case *ast.FuncDecl:
+						add(n.Recv)
+						add(n.Type.Params)
+					case *ast.FuncLit:
+						add(n.Type.Params)
+					}
+					return true
+				})
+			}
+		}
+	})
+	return vc.prog.paramVars[obj]
+}
